@@ -15,15 +15,15 @@ ALPHABET = ["a", "b", "c", "d", "e", "f", "g", "x", "y", "z", "a", "b", "c", "o"
 
 ATTR_MENU = {
     "level": [1, 2, 3, 4, 5, 6],
-    "src": ["img.png", "a.gif", "x\U0001F600.png"],
+    "src": ["img.png", "a.gif", "x\U0001F600.png", ""],
     "alt": [None, "alt", ""],
-    "title": [None, "t", "Té"],
+    "title": [None, "t", "Té", ""],
     "order": [1, 2, 5],
     "meta": [None, 1, 2, "m", [1, [2, {"k": None}]], {"a": {"b": [1, 2]}, "c": None}, 0, False],
     "colspan": [1, 2, 3],
     "bg": [None, "red", {"r": 1}],
-    "href": ["foo", "bar", "http://x/\U0001F600"],
-    "id": [1, 2, 10, 20],
+    "href": ["foo", "bar", "http://x/\U0001F600", ""],
+    "id": [1, 2, 10, 20, 0],
 }
 
 
@@ -217,7 +217,7 @@ OP_KINDS = [
     "type", "type_run", "backspace", "delete", "delete_range", "paste", "paste_range",
     "insert_node", "split", "join", "lift", "wrap", "set_block_type", "set_node_markup",
     "add_mark", "remove_mark", "add_node_mark", "remove_node_mark", "set_node_attribute",
-    "set_doc_attribute", "raw_step", "replace_with_self", "mark_run",
+    "set_doc_attribute", "raw_step", "replace_with_self", "mark_run", "seam_pair", "mark_sweep",
 ]
 
 DEFAULT_MIX = {
@@ -225,7 +225,7 @@ DEFAULT_MIX = {
     "paste_range": 4, "insert_node": 4, "split": 4, "join": 3, "lift": 3, "wrap": 3,
     "set_block_type": 4, "set_node_markup": 2, "add_mark": 5, "remove_mark": 3,
     "add_node_mark": 2, "remove_node_mark": 1, "set_node_attribute": 3, "set_doc_attribute": 2,
-    "raw_step": 3, "replace_with_self": 1, "mark_run": 1,
+    "raw_step": 3, "replace_with_self": 1, "mark_run": 1, "mark_sweep": 1,
 }
 
 
@@ -459,6 +459,86 @@ def gen_op_(rng, kind, doc, sel, pool):
             lo = max(a, x - rng.choice([0, 0, 1]))
             ranges.append([lo, y])
         return {"op": "mark_run", "ranges": ranges, "mark": m.to_json(), "remove": rng.random() < 0.4}
+    if kind == "mark_sweep":
+        # a raw mark step over a whole textblock that already carries that mark on some of its
+        # runs: some runs change, some are carried over as they are, several joins in one pass
+        blocks = []
+
+        def fb(node, pos, parent, i):
+            if node.is_textblock and node.child_count >= 3:
+                blocks.append((pos, node))
+            return None
+
+        doc.descendants(fb)
+        if not blocks:
+            return None
+        pos, node = rng.choice(blocks)
+        present = [m for ch in node.content.content for m in ch.marks]
+        m = rng.choice(present) if present and rng.random() < 0.8 else rand_mark(rng, schema)
+        if m is None:
+            return None
+        a, b = pos + 1, pos + 1 + node.content.size
+        if rng.random() < 0.3:
+            a = min(b, a + rng.randint(0, 2))
+        return {"op": "raw_step", "step": {"stepType": rng.choice(["addMark", "addMark", "removeMark"]),
+                                           "mark": m.to_json(), "from": a, "to": b}}
+    if kind == "seam_pair":
+        # two consecutive raw replace steps that meet at one position with *open* slices on both
+        # sides of the seam (the second ends where the first inserted, or starts where it ended):
+        # the shapes ReplaceStep.merge has to refuse or to join correctly
+        depth_of = {}
+        for q in range(size + 1):
+            try:
+                depth_of[q] = doc.resolve(q).depth
+            except ValueError:
+                pass
+        deep = [q for q, d in depth_of.items() if d >= 1]
+        if len(deep) < 2:
+            return None
+        for _ in range(8):
+            b = rng.choice(deep)
+            cands = [q for q in deep if q < b and depth_of[q] == depth_of[b]]
+            if not cands:
+                continue
+            a = rng.choice(cands[-12:])
+            try:
+                s1 = doc.slice(a, b)
+            except ValueError:
+                continue
+            if not s1.size or s1.open_start != s1.open_end:
+                continue
+            step1 = {"stepType": "replace", "from": b, "to": b, "slice": s1.to_json()}
+            r1 = pt.Step.from_json(schema, step1).apply(doc)
+            if r1.failed or r1.doc is None:
+                continue
+            d1 = r1.doc
+            mode = rng.choice(["before", "before", "after"])
+            if mode == "before":
+                xs = [q for q in deep if q < b and depth_of[q] == depth_of[b]]
+                if not xs:
+                    continue
+                x = rng.choice(xs[-10:])
+                try:
+                    s2 = d1.slice(x, b) if rng.random() < 0.6 else rng.choice(pool or [doc]).slice(x, b)
+                except ValueError:
+                    continue
+                step2 = {"stepType": "replace", "from": x, "to": b}
+            else:
+                e = b + s1.size
+                ys = [q for q in range(e, min(d1.content.size, e + 14) + 1)]
+                ys = [q for q in ys if d1.resolve(q).depth == d1.resolve(e).depth]
+                if not ys:
+                    continue
+                y = rng.choice(ys)
+                try:
+                    s2 = d1.slice(e, y)
+                except ValueError:
+                    continue
+                step2 = {"stepType": "replace", "from": e, "to": y}
+            if s2.size:
+                step2["slice"] = s2.to_json()
+            return {"op": "seam_pair", "steps": [step1, step2]}
+        return None
     if kind == "set_node_attribute":
         ps = node_positions(doc, lambda n: not n.is_text and bool(n.type.attrs))
         if not ps:
@@ -751,6 +831,13 @@ def apply_op(tr, op):
             tr.add_mark(op["from"], op["to"], m)
         else:
             tr.remove_mark(op["from"], op["to"], m)
+    elif k == "seam_pair":
+        for sj in op["steps"]:
+            step = pt.Step.from_json(schema, sj)
+            if not step_in_domain(step, tr.doc):
+                raise Refused("seam step outside document")
+            if tr.maybe_step(step).failed:
+                break
     elif k == "mark_run":
         m = schema.mark_from_json(op["mark"])
         for (x, y) in op["ranges"]:
